@@ -25,7 +25,7 @@ m = {
     "setup_cmd": "python3 verif.py setup",
     "hooks": {
         "guard": "CAPPUCCINO_VERIF_HOOKS",
-        "enable": "only the schedule engine (E3, property C06) compiles /repo/inc with -DCAPPUCCINO_VERIF_HOOKS; every other engine builds the production text of the headers",
+        "enable": "only the schedule engine (E3: property C06, and its ThreadSanitizer build used as the second phase of C07) compiles /repo/inc with -DCAPPUCCINO_VERIF_HOOKS; every other engine builds the production text of the headers",
         "baseline_off_cmd": "rm -rf /tmp/verif-baseline && cmake -G Ninja -S /repo -B /tmp/verif-baseline >/dev/null && cmake --build /tmp/verif-baseline >/dev/null && /tmp/verif-baseline/test/libcappuccino_tests; rc=$?; rm -rf /tmp/verif-baseline; exit $rc",
         "source_commits": HOOK_COMMITS,
         "add_only": True,
